@@ -177,3 +177,5 @@ def run(ctx):
            tap.path, "" if ok else "the option is not parsed to an integer")
     ctx.assume("b * floor(t / b) <= t < b * floor(t / b) + b for every b > 0 (arithmetic)")
     ctx.assume("`//` on the stored times is floor division (int or float operands)")
+
+EXPLANATION += ' Batch 6: the stored arrival times that `started` is rounded from are never the target of an UPDATE (R16.first).'
